@@ -78,6 +78,18 @@ def ev(e, env):
         return tuple(ev(x, env) for x in e.elts)
     if isinstance(e, ast.Dict):
         return {ev(k, env): ev(v, env) for k, v in zip(e.keys, e.values)}
+    if isinstance(e, ast.Subscript) and not isinstance(e.slice, ast.Slice):
+        # a table lookup (`strategies[args.dict_strategy]`) over an evaluated dict / tuple
+        base, key = ev(e.value, env), ev(e.slice, env)
+        try:
+            return base[key]
+        except (KeyError, IndexError, TypeError):
+            raise Unknown(ast.unparse(e))
+    if isinstance(e, ast.Call) and isinstance(e.func, ast.Attribute) and e.func.attr == "get" and 1 <= len(e.args) <= 2 and not e.keywords:
+        base = ev(e.func.value, env)
+        if isinstance(base, dict):
+            return base.get(ev(e.args[0], env), ev(e.args[1], env) if len(e.args) == 2 else None)
+        raise Unknown(ast.unparse(e))
     if isinstance(e, ast.Call) and call_name(e) == "len" and len(e.args) == 1:
         d = "len(" + (dotted(e.args[0]) or ast.unparse(e.args[0])) + ")"
         if d in env:
